@@ -1275,8 +1275,10 @@ func (x *Exec) callWritesGhost(fr *Frame, c *ast.CallExpr) (all bool, names []st
 			"net/http.Error":                       {"httpstatus", "httpwrites"},
 			"net/http.Client.Do":                   {"upstream"},
 			"net/http.ReadRequest":                 {"connreader", "bodypending"},
-			"io.ReadCloser.Close":                  {"bodypending"},
-			"io.Closer.Close":                      {"bodypending"},
+			"reservoir/cache.EntryData.Close":      {"closedh"},
+			"io.ReadSeekCloser.Close":              {"closedh"},
+			"io.ReadCloser.Close":                  {"bodypending", "closedh"},
+			"io.Closer.Close":                      {"bodypending", "closedh"},
 			"crypto/tls.Server":                    {"connreader"},
 			"os.":                                  {"fsinode", "isize", "icontent", "handleinode"},
 			"io.Copy":                              {"isize", "icontent", "httpstatus", "httpwrites", "wbody"},
